@@ -1,8 +1,11 @@
 (* C16 - model of the development-mode text file and of the recompile decision.
      cmd/templ/generatecmd/eventhandler.go: generate   - the text file is strings.Join(Literals, LF)
      runtime/watchmode.go: cacheStrings, WriteString   - strings.Split(file, LF), literals[index-1], strconv.Unquote
-     generator/generator.go: HasChanged               - options, number of literals, list of Go expressions
+     generator/generator.go: HasChanged               - options, number of literals, list of Go expressions, skeleton
      generator/rangewriter.go: closeLiteral           - rw.index++ : literals are numbered from 1 in emission order
+     generator/rangewriter.go: write / writeUnrecorded / Skeleton - the generated code without the contents of the
+                                                        WriteString literals, the generated-date line and the Line/Col
+                                                        numbers of templ.Error values
    Definitions only. *)
 From Coq.Strings Require Import Byte String.
 From Coq Require Import List Arith NArith Bool.
@@ -43,7 +46,14 @@ Definition normal_write (lit : bytes) : option bytes := unquote lit.
 
 (* ---------- generator.GeneratorOutput and generator.HasChanged ---------- *)
 Record gen_opts := { o_version : bytes; o_file : bytes; o_skip : bool; o_date : bytes }.
-Record gen_output := { g_opts : gen_opts; g_literals : list bytes; g_exprs : list bytes }.
+(* GeneratorOutput.  The type S of the Skeleton field is a parameter: it is [bytes] for the real generator (the
+   string RangeWriter.Skeleton() returns; model: skel_of_code below) and the erased statement list for the
+   compiled-template model.  HasChanged only ever asks whether two skeletons are equal. *)
+Record gen_output (S : Type) := { g_opts : gen_opts; g_literals : list bytes; g_exprs : list bytes; g_skel : S }.
+Arguments g_opts {S} _.
+Arguments g_literals {S} _.
+Arguments g_exprs {S} _.
+Arguments g_skel {S} _.
 
 (* for i, prev := range previous.Expressions: if prev != updated.Expressions[i] return true  (lengths already equal) *)
 Fixpoint exprs_differ (a b : list bytes) : bool :=
@@ -52,7 +62,9 @@ Fixpoint exprs_differ (a b : list bytes) : bool :=
   | _, _ => false
   end.
 
-Definition has_changed (p u : gen_output) : bool :=
+(* HasChanged as it was before commit 75525d5: options, number of literals, list of Go expressions.
+   Kept for the regression lemma: on its own it is not a sound recompile criterion. *)
+Definition expr_list_criterion {S : Type} (p u : gen_output S) : bool :=
   if negb (bytes_eqb (o_version (g_opts p)) (o_version (g_opts u))) then true
   else if negb (bytes_eqb (o_file (g_opts p)) (o_file (g_opts u))) then true
   else if negb (Bool.eqb (o_skip (g_opts p)) (o_skip (g_opts u))) then true
@@ -61,16 +73,72 @@ Definition has_changed (p u : gen_output) : bool :=
   else if negb (length (g_exprs p) =? length (g_exprs u))%nat then true
   else exprs_differ (g_exprs p) (g_exprs u).
 
+(* HasChanged: the checks above, then  if previous.Skeleton != updated.Skeleton { return true };  return false *)
+Definition has_changed {S : Type} (skel_eqb : S -> S -> bool) (p u : gen_output S) : bool :=
+  if expr_list_criterion p u then true
+  else if negb (skel_eqb (g_skel p) (g_skel u)) then true
+  else false.
+
 (* ---------- what a generated template does when it renders ----------
-   The generated function is a sequence of three kinds of statement (flattened; an if-block is its
-   condition followed by the number of statements in its body):
-     ULit lit      templruntime.WriteString(buffer, INDEX, "lit")     INDEX assigned by closeLiteral
-     UExpr k e     evaluate the Go expression e and write it through writer k chosen at generation time
+   The generated function is a sequence of statements (flattened: a block is its head followed by its body):
+     OLit i lit    templruntime.WriteString(buffer, i, "lit")
+     OExpr k e     evaluate the Go expression e and write it through writer k chosen at generation time
                    (text/attribute escaper, style sanitiser, URL, script attribute, JSON in script, ...)
-     UIf c n       if c { next n statements }                         (for/switch are not modelled)        *)
+     OIf c n       if c { next n statements }
+     OCode c       ANY other generated code c - for / switch / case / else / closing braces, component calls with or
+                   without children, raw Go blocks.  Its meaning is an arbitrary function of the code, its position
+                   and the program state: it may change the state, write bytes, fail, and continue anywhere
+                   (a loop is a backward jump).
+   A render that fails is [None] whatever the error value says: the Line/Col numbers inside templ.Error values are
+   not rendered bytes and are outside the property. *)
 Inductive sink := SText | SAttr | SStyle | SUrl | SScriptAttr | SJsOut | SJsIn | SOther (n : N).
-Inductive uop := ULit (lit : bytes) | UExpr (k : sink) (e : bytes) | UIf (c : bytes) (n : nat).
-Inductive op := OLit (index : nat) (lit : bytes) | OExpr (k : sink) (e : bytes) | OIf (c : bytes) (n : nat).
+Inductive op := OLit (index : nat) (lit : bytes) | OExpr (k : sink) (e : bytes) | OIf (c : bytes) (n : nat) | OCode (c : bytes).
+
+Section Exec.
+Variable St : Type.                                  (* the program state: arguments, loop variables, ... *)
+Variable sem : sink -> bytes -> bytes.               (* the runtime writers: arbitrary functions *)
+Variable ev_str : St -> bytes -> bytes.              (* value of a Go expression *)
+Variable ev_bool : St -> bytes -> bool.              (* value of a Go condition *)
+Variable code : bytes -> nat -> St -> option (St * bytes * nat).
+   (* any other statement, at position pc in state s: None = the function returns an error;
+      Some (s', out, next) = new state, bytes written, position of the statement executed next *)
+Variable lk : nat -> bytes -> option bytes.          (* WriteString(index, lit): which string is written *)
+
+(* run from statement pc; falling off the end is the function's return; None = error return or out of fuel *)
+Fixpoint exec (fuel : nat) (P : list op) (pc : nat) (s : St) : option bytes :=
+  match fuel with
+  | O => None
+  | S f =>
+      match nth_error P pc with
+      | None => Some []
+      | Some (OLit i lit) => match lk i lit with Some v => option_map (app v) (exec f P (S pc) s) | None => None end
+      | Some (OExpr k e) => option_map (app (sem k (ev_str s e))) (exec f P (S pc) s)
+      | Some (OIf c n) => exec f P (if ev_bool s c then S pc else (S pc + n)%nat) s
+      | Some (OCode c) => match code c pc s with
+                          | Some (s', out, next) => option_map (app out) (exec f P next s')
+                          | None => None
+                          end
+      end
+  end.
+End Exec.
+
+Definition lk_normal (i : nat) (lit : bytes) : option bytes := normal_write lit.
+Definition lk_dev (file : bytes) (i : nat) (lit : bytes) : option bytes := dev_write file i.
+
+(* the literals of a program in statement order, and "the j-th WriteString call carries index k+j" *)
+Fixpoint op_lits (P : list op) : list bytes :=
+  match P with [] => [] | OLit _ l :: r => l :: op_lits r | _ :: r => op_lits r end.
+Fixpoint numbered_from (k : nat) (P : list op) : bool :=
+  match P with
+  | [] => true
+  | OLit i _ :: r => (i =? S k)%nat && numbered_from (S k) r
+  | _ :: r => numbered_from k r
+  end.
+
+(* ---------- a template as the generator sees it: statements before the literals are numbered ----------
+     ULit lit      static text                    UExpr / UIf as above
+     UCode c es    other generated code c together with the Go expressions es recorded for it in the source map *)
+Inductive uop := ULit (lit : bytes) | UExpr (k : sink) (e : bytes) | UIf (c : bytes) (n : nat) | UCode (c : bytes) (es : list bytes).
 
 (* numbering of literals: rw.index++ before each emitted WriteString *)
 Fixpoint compile_from (k : nat) (u : list uop) : list op :=
@@ -79,6 +147,7 @@ Fixpoint compile_from (k : nat) (u : list uop) : list op :=
   | ULit lit :: r => OLit (S k) lit :: compile_from (S k) r
   | UExpr s e :: r => OExpr s e :: compile_from k r
   | UIf c n :: r => OIf c n :: compile_from k r
+  | UCode c _ :: r => OCode c :: compile_from k r
   end.
 Definition compile (u : list uop) : list op := compile_from 0 u.
 
@@ -86,53 +155,144 @@ Definition compile (u : list uop) : list op := compile_from 0 u.
 Fixpoint lits (u : list uop) : list bytes :=
   match u with [] => [] | ULit l :: r => l :: lits r | _ :: r => lits r end.
 Fixpoint exprs (u : list uop) : list bytes :=
-  match u with [] => [] | ULit _ :: r => exprs r | UExpr _ e :: r => e :: exprs r | UIf c _ :: r => c :: exprs r end.
-Definition gen_out (o : gen_opts) (u : list uop) : gen_output := {| g_opts := o; g_literals := lits u; g_exprs := exprs u |}.
+  match u with
+  | [] => []
+  | ULit _ :: r => exprs r
+  | UExpr _ e :: r => e :: exprs r
+  | UIf c _ :: r => c :: exprs r
+  | UCode _ es :: r => es ++ exprs r
+  end.
 
-(* the generated code with the contents of its string literals erased *)
+(* GeneratorOutput.Skeleton at this level: the statements with the contents of the string literals erased *)
 Definition erase (o : uop) : uop := match o with ULit _ => ULit [] | x => x end.
 Definition skeleton (u : list uop) : list uop := map erase u.
+Definition sink_eqb (k k' : sink) : bool :=
+  match k, k' with
+  | SText, SText | SAttr, SAttr | SStyle, SStyle | SUrl, SUrl | SScriptAttr, SScriptAttr | SJsOut, SJsOut | SJsIn, SJsIn => true
+  | SOther n, SOther m => (n =? m)
+  | _, _ => false
+  end.
+Fixpoint list_eqb {A : Type} (eqb : A -> A -> bool) (a b : list A) : bool :=
+  match a, b with
+  | [], [] => true
+  | x :: a', y :: b' => eqb x y && list_eqb eqb a' b'
+  | _, _ => false
+  end.
 Definition uop_eqb (a b : uop) : bool :=
   match a, b with
   | ULit x, ULit y => bytes_eqb x y
-  | UExpr k e, UExpr k' e' =>
-      bytes_eqb e e' && match k, k' with
-                        | SText, SText | SAttr, SAttr | SStyle, SStyle | SUrl, SUrl | SScriptAttr, SScriptAttr | SJsOut, SJsOut | SJsIn, SJsIn => true
-                        | SOther n, SOther m => (n =? m)
-                        | _, _ => false end
+  | UExpr k e, UExpr k' e' => bytes_eqb e e' && sink_eqb k k'
   | UIf c n, UIf c' n' => bytes_eqb c c' && (n =? n')%nat
+  | UCode c es, UCode c' es' => bytes_eqb c c' && list_eqb bytes_eqb es es'
   | _, _ => false
   end.
+Definition skel_eqb (a b : list uop) : bool := list_eqb uop_eqb a b.
 
-Section Run.
-Variable sem : sink -> bytes -> bytes.       (* the runtime writers: arbitrary functions *)
-Variable ev_str : bytes -> bytes.            (* value of a Go expression *)
-Variable ev_bool : bytes -> bool.            (* value of a Go condition *)
-Variable lk : nat -> bytes -> option bytes.  (* WriteString(index, lit): which string is written *)
+Definition gen_out (o : gen_opts) (u : list uop) : gen_output (list uop) :=
+  {| g_opts := o; g_literals := lits u; g_exprs := exprs u; g_skel := skeleton u |}.
 
-(* skip = number of following statements inside an if-body whose condition was false *)
-Fixpoint run (ops : list op) (skip : nat) : option bytes :=
-  match ops with
-  | [] => Some []
-  | o :: r =>
-      match skip with
-      | S k => run r k
-      | O =>
-          match o with
-          | OLit i lit => match lk i lit with Some v => option_map (app v) (run r 0) | None => None end
-          | OExpr k e => option_map (app (sem k (ev_str e))) (run r 0)
-          | OIf c n => run r (if ev_bool c then 0%nat else n)
+(* ---------- the skeleton of generated code (text level) ----------
+   RangeWriter.write appends everything it writes to the skeleton; what goes through writeUnrecorded is left out:
+     closeLiteral                  the literal between  WriteString(buffer, INDEX, "  and  ")
+     writeGeneratedDateComment     the whole line  // templ: generated: DATE
+     writeExpressionErrorHandler   the two numbers in  return<TAB>templ.Error{Err: ..., FileName: ..., Line: N, Col: M}
+   skel_of_code computes the same string from the generated code, line by line (a literal never holds a raw LF).
+   The two can only differ on hand-written Go code one of whose lines is itself such a line. *)
+Fixpoint strip (p s : bytes) : option bytes :=
+  match p with
+  | [] => Some s
+  | a :: p' => match s with b :: s' => if Byte.eqb a b then strip p' s' else None | [] => None end
+  end.
+Fixpoint span (f : byte -> bool) (s : bytes) : bytes * bytes :=
+  match s with
+  | [] => ([], [])
+  | c :: r => if f c then let '(a, b) := span f r in (c :: a, b) else ([], s)
+  end.
+Definition is_digit (b : byte) : bool := (48 <=? bN b) && (bN b <=? 57).
+Definition is_tab (b : byte) : bool := Byte.eqb b x09.
+Definition strip_end (p s : bytes) : option bytes := option_map (@rev byte) (strip (rev p) (rev s)).
+
+Definition ws_prefix : bytes := bs "templ_7745c5c3_Err = templruntime.WriteString(templ_7745c5c3_Buffer, ".
+Definition ws_open : bytes := [x2c; x20; x22].     (* comma, space, double quote *)
+Definition ws_close : bytes := [x22; x29].          (* double quote, closing parenthesis *)
+Definition err_prefix : bytes := bs "return" ++ [x09] ++ bs "templ.Error{Err: templ_7745c5c3_Err, FileName: ".
+Definition date_prefix : bytes := bs "// templ: generated: ".
+Definition col_rev : bytes := rev (bs ", Col: ").
+Definition line_rev : bytes := rev (bs ", Line: ").
+Definition pos_erased : bytes := bs ", Line: , Col: }".
+
+(* a line  TABS templ_7745c5c3_Err = templruntime.WriteString(templ_7745c5c3_Buffer, DIGITS, "LIT")
+   is split into (TABS, DIGITS, LIT) *)
+Definition ws_parse (l : bytes) : option (bytes * bytes * bytes) :=
+  let '(tb, r) := span is_tab l in
+  match strip ws_prefix r with
+  | None => None
+  | Some r1 =>
+      let '(ds, r2) := span is_digit r1 in
+      match ds with
+      | [] => None
+      | _ :: _ =>
+          match strip ws_open r2 with
+          | None => None
+          | Some r3 => match strip_end ws_close r3 with
+                       | None => None
+                       | Some lit => Some (tb, ds, lit)
+                       end
           end
       end
   end.
-End Run.
+Definition ws_line (tb ds lit : bytes) : bytes := tb ++ ws_prefix ++ ds ++ ws_open ++ lit ++ ws_close.
 
-Definition lk_normal (i : nat) (lit : bytes) : option bytes := normal_write lit.
-Definition lk_dev (file : bytes) (i : nat) (lit : bytes) : option bytes := dev_write file i.
-
-(* the guard of the partial theorem: a literal, then (text expression, literal) pairs, no control flow *)
-Fixpoint alternating (u : list uop) : bool :=
-  match u with
-  | ULit _ :: r => match r with [] => true | UExpr SText _ :: r' => alternating r' | _ => false end
-  | _ => false
+(* TABS return<TAB>templ.Error{... , Line: DIGITS, Col: DIGITS}  loses the two numbers (read from the end of the line:
+   the file name in between is an arbitrary Go string) *)
+Definition erase_pos (l : bytes) : bytes :=
+  let '(tb, r) := span is_tab l in
+  match strip err_prefix r with
+  | None => l
+  | Some _ =>
+      match strip [x7d] (rev l) with
+      | None => l
+      | Some a =>
+          let '(_, a1) := span is_digit a in
+          match strip col_rev a1 with
+          | None => l
+          | Some a2 =>
+              let '(_, a3) := span is_digit a2 in
+              match strip line_rev a3 with
+              | None => l
+              | Some a4 => rev a4 ++ pos_erased
+              end
+          end
+      end
   end.
+
+Definition is_date (l : bytes) : bool := match strip date_prefix l with Some _ => true | None => false end.
+
+Definition skel_line (l : bytes) : bytes :=
+  match ws_parse l with
+  | Some (tb, ds, _) => ws_line tb ds []
+  | None => erase_pos l
+  end.
+
+Definition code_lines (code : bytes) : list bytes := filter (fun l => negb (is_date l)) (split_lf code).
+Definition skel_of_code (code : bytes) : bytes := join_lf (map skel_line (code_lines code)).
+
+(* GeneratorOutput of the real generator, given what it produced *)
+Definition gen_out_code (o : gen_opts) (literals exprs : list bytes) (code : bytes) : gen_output bytes :=
+  {| g_opts := o; g_literals := literals; g_exprs := exprs; g_skel := skel_of_code code |}.
+
+(* ---------- the generated file as a program of lines ----------
+   Every line of the generated code is a statement: a WriteString line is OLit with the index written in it, any
+   other line is OCode (the date comment is no statement).  [exec] over this program with an arbitrary [code]
+   is an arbitrary semantics of the Go text in which a WriteString call does what [lk] says. *)
+Definition num_of (ds : bytes) : nat := match undec ds with Some n => N.to_nat n | None => 0%nat end.
+Definition op_of_line (l : bytes) : op :=
+  match ws_parse l with
+  | Some (_, ds, lit) => OLit (num_of ds) lit
+  | None => OCode l
+  end.
+Definition ops_of_code (code : bytes) : list op := map op_of_line (code_lines code).
+(* a well-formed generated file: it has a line, and its WriteString calls are numbered 1, 2, ... in order
+   (generator model: C16_literal_indices; real generator: checked on every generated file) *)
+Definition wf_code (code : bytes) : bool :=
+  match code_lines code with [] => false | _ :: _ => numbered_from 0 (ops_of_code code) end.
